@@ -44,7 +44,7 @@ Theorem render_scan : forall d, wf_doc d -> scan_comments (render d) = doc_comme
 Proof.
   unfold scan_comments.
   fix IH 1. intros d H. destruct d as [|p r]; [reflexivity|].
-  destruct p as [s|e s|c|].
+  destruct p as [s|e s|c| |e s].
   - destruct H as [Hn Hr]. cbn [render render_piece]. rewrite (scan_from_neutral _ _ Hn). exact (IH r Hr).
   - destruct H as [Hn Hr]. cbn [render render_piece]. rewrite (scan_from_neutral _ _ Hn). exact (IH r Hr).
   - destruct H as [Hc Hr]. destruct r as [|q r'].
@@ -55,6 +55,7 @@ Proof.
       change (doc_comments (Comment c :: Nl :: r')) with (c :: doc_comments r').
       f_equal. apply IH. exact Hr.
   - cbn [render render_piece]. rewrite scan_from_nl. exact (IH r H).
+  - destruct H as [Hn Hr]. cbn [render render_piece]. rewrite (scan_from_neutral _ _ Hn). exact (IH r Hr).
 Qed.
 
 (* the hypothesis is not vacuous and the scanner sees through string literals *)
